@@ -141,18 +141,10 @@ def observe(sb, case, task, res, p, launcher, pwd):
     out.append({'line': line, 'words': ([sb.probe] + argv) if argv is not None else 'not-run'})
     exec_sh = open('%s/%s.exec.sh' % (task['task_sandbox_path'], task['uid'])).read()
     envr = res['ranks'].get(0, {}).get('env')
-    # the export lines as the real _get_task_env wrote them (values may contain newlines: cut at the next key)
+    # the export lines as the real _get_task_env wrote them: compared as one text (values may contain newlines)
     text = p._get_task_env(task, launcher)
-    keys = list(case['env'].keys())
-    pos = 0
-    for i, k in enumerate(keys):
-        try:
-            start = text.index('export %s=' % k, pos)
-            end = text.index('\nexport %s=' % keys[i + 1], start) if i + 1 < len(keys) else len(text) - 1
-            line = text[start:end]; pos = end
-        except ValueError:
-            line = None
-        out.append({'line': line, 'parsed': [k, envr.get(k)] if envr is not None else 'not-run'})
+    for i, k in enumerate(case['env'].keys()):
+        out.append({'text': text if i == 0 else None, 'parsed': [k, envr.get(k)] if envr is not None else 'not-run'})
     m = re.search(r'^export RP_TASK_SANDBOX="(.*)"$', exec_sh, re.M)
     out.append({'gpr': re.search(r'^export RP_GPUS_PER_RANK=(.*)$', exec_sh, re.M).group(1),
                 'ref': m.group(1) if m else None,
@@ -348,12 +340,21 @@ def run(ctx):
     # model answers: reserved commands filtered out, not-run placeholders skipped
     res = common.model('shell', ops); ctx.traces += len(ops)
     nbad, first = 0, None
+    pending = None
     for op, case, m, r in zip(ops, canon_cases, res, impl):
         m = canon_model(case, m)
         if op['op'] == 'execline':
             ok = (m['line'] == r['line']) and (m['words'] is None or r['words'] == 'not-run' or m['words'] == r['words'])
         elif op['op'] == 'export':
-            ok = (m['line'] == r['line']) and (m['parsed'] is None or r['parsed'] == 'not-run' or m['parsed'] == r['parsed'])
+            ok = (m['parsed'] is None or r['parsed'] == 'not-run' or m['parsed'] == r['parsed'])
+            if r.get('text') is not None:
+                pending = {'text': r['text'], 'lines': []}
+            pending['lines'].append(m['line'])
+            if len(pending['lines']) == len(case['env']):
+                want = '\n# task env settings\n' + ''.join(l + '\n' for l in pending['lines'])
+                if want != pending['text']:
+                    ok = False
+                    r = {'text': pending['text'], 'parsed': r['parsed']}; m = {'text': want, 'parsed': m['parsed']}
         elif op['op'] == 'rpenv':
             ok = (m['gpr'] == r['gpr'] and m['ref'] == r['ref'] and (r['expanded'] == 'not-run' or os.path.normpath(m['expanded']) == r['expanded']))
         else:
